@@ -299,6 +299,8 @@ pub fn interesting_sources(rng: &mut Rng, n: usize) -> Vec<String> {
         "(1, \"s\", ())", "", ";", "math::sqrt(4)", "len(\"abc\")", "1 2", "/*", "a = \"s\"", "h(1)", "b = 2; b",
         "1 / 0 +", "zz *", "a = 6; a +", "five = 6; five +", "true", "42", "true + 42", "a = 1.5; a = 2", "n = 20; n += 1; n", "\"a\" = 3; a + 1",
         "x = 5, 7", "a = 1; b = a + 1; a, b",
+        // constant sub-expressions that call builtins: what they mean depends on the context at evaluation time
+        "max(1, 2)", "a + math::abs(-2)", "y = floor(2.5); y", "min(3, 4) + max(1, 2)", "len(\"abc\") * 2", "if(true, max(1, 2), 0)", "math::abs(-2) == 2 && true",
     ]
     .into_iter()
     .map(String::from)
@@ -329,8 +331,16 @@ impl Property for C12 {
     fn cases(&self, tier: Tier, rng: &mut Rng) -> (Vec<Case>, bool) {
         let srcs = interesting_sources(rng, if tier == Tier::Quick { 1500 } else { 60_000 });
         let mut cases = Vec::new();
-        for p in srcs {
+        for (ci, p) in srcs.into_iter().enumerate() {
             let mut lines = program_setup();
+            if ci % 3 == 1 {
+                // builtins switched off and a user function under a builtin's name: precompiling must not resolve anything early
+                lines.push("setb 0 1".to_string());
+                lines.push(format!("setf 0 {} kI-1", xarg("max")));
+            } else if ci % 3 == 2 {
+                lines.push(format!("setf 0 {} kI-1", xarg("max")));
+                lines.push(format!("setf 0 {} fail", xarg("math::abs")));
+            }
             for level in ["s", "t"] {
                 for kind in KINDS {
                     lines.push(format!("eval 0 fresh {} {} {}", level, kind, xarg(&p)));
@@ -351,7 +361,7 @@ impl Property for C12 {
         (cases, false)
     }
     fn judge(&self, case: &Case, out: &Outcome) -> Verdict {
-        let base = program_setup().len(); // setup lines
+        let base = case.impl_lines.iter().position(|l| l.starts_with("eval")).unwrap_or(0); // setup lines
         let get = |level: usize, kind: usize, what: usize| -> &String { &out.impl_resp[base + (level * 8 + kind) * 5 + what] };
         // what: 0 fresh, 1 ro, 3 mut, 4 dump after mut
         for level in 0..2 {
@@ -639,14 +649,34 @@ impl Property for C09 {
         "C09"
     }
     fn rule(&self) -> String {
-        "the complete configuration matrix: (49 builtin names + 5 other names) x {EmptyContext, EmptyContextWithBuiltinFunctions, HashMapContext x builtin switch x user function (none / identity / constant / failing / returning FunctionIdentifierNotFound) \
-         x variable of the same name x {as is, cloned, clone_from into a context with the opposite switch, after clear_functions}} x call forms {n(x), n x, n(), n(x, y), m n x}: resolution (user function first, then builtins unless disabled, else the unknown-function error naming n) and argument shape (recorded by the user function) as stated. \
+        "the complete configuration matrix: (49 builtin names + 5 other names + ~190 near misses of builtin names) x {EmptyContext, EmptyContextWithBuiltinFunctions, HashMapContext x builtin switch x user function (none / identity / constant / failing / returning FunctionIdentifierNotFound) \
+         x variable of the same name x {as is, cloned, clone_from into a context with the opposite switch, after clear_functions}} x call forms {n(x), n x, n(), n(x, y), m n x, n, n true, n \"s\", n 1.5}, read-only and (HashMapContext) through the mutable evaluator: resolution (user function first, then builtins unless disabled, else the unknown-function error naming n) and argument shape (recorded by the user function) as stated. \
          non-trivial = a function is resolved (user or builtin); distinct = distinct configuration"
             .into()
     }
     fn cases(&self, _tier: Tier, _rng: &mut Rng) -> (Vec<Case>, bool) {
         let mut names: Vec<&str> = super::builtins::BUILTINS.to_vec();
         names.extend(["foo", "math::nope", "str", "maxx", "typeo"]);
+        // near misses of every builtin name (repeated / missing / foreign namespace, other case, suffix): none is a builtin
+        let near: Vec<String> = super::builtins::BUILTINS
+            .iter()
+            .flat_map(|b| {
+                let last = b.rsplit("::").next().unwrap();
+                let mut cap = last.to_string();
+                cap[..1].make_ascii_uppercase();
+                let mut v = vec![format!("{}_", b), b.replace(last, &cap)];
+                if let Some((ns, rest)) = b.split_once("::") {
+                    v.push(format!("{}::{}::{}", ns, ns, rest));
+                    v.push(rest.to_string());
+                } else {
+                    v.push(format!("math::{}", b));
+                    v.push(format!("std::{}", b));
+                }
+                v
+            })
+            .filter(|n| !super::builtins::BUILTINS.contains(&n.as_str()))
+            .collect();
+        names.extend(near.iter().map(|s| s.as_str()));
         let mut cases = Vec::new();
         for name in &names {
             for ctx in ["empty", "emptyb", "hm"] {
@@ -695,6 +725,7 @@ impl Property for C09 {
                                 let arg = if ctx == "hm" { "x" } else { "2" };
                                 let arg2 = if ctx == "hm" { "y" } else { "3" };
                                 let m = if ctx == "hm" { "m" } else { "typeof" };
+                                let mut forms: Vec<String> = Vec::new();
                                 for form in [
                                     format!("{}({})", name, arg),
                                     format!("{} {}", name, arg),
@@ -707,6 +738,14 @@ impl Property for C09 {
                                     format!("{} 1.5", name),
                                 ] {
                                     lines.push(format!("eval {} ro s value {}", slot, xarg(&form)));
+                                    forms.push(form.clone());
+                                }
+                                if ctx == "hm" {
+                                    // the same resolution through the mutable evaluator (on a copy)
+                                    lines.push(format!("clone {} 5", slot));
+                                    for form in &forms {
+                                        lines.push(format!("eval 5 mut s value {}", xarg(form)));
+                                    }
                                 }
                                 lines.push(format!("dump {}", slot));
                                 let human = format!("name={} ctx={} disabled={} userfn={} var={} {}", name, ctx, sw, f, var, post);
@@ -744,6 +783,7 @@ impl Property for C09 {
         ];
         let mut resolved = false;
         for (k, &i) in evals.iter().enumerate() {
+            let k = k % 9; // the nine forms read-only, then (HashMapContext) the same nine through the mutable evaluator
             let r = &out.impl_resp[i];
             let res = eval_result(r);
             let log = r.split(" ; ").nth(1).unwrap_or("");
